@@ -6,7 +6,7 @@ from props import rtcommon
 
 def check(run):
     thorough = run.tier == "thorough"
-    run.tlc_model("JsonRTGen", "rt_model", workers=8, timeout=1800)
+    run.tlc_model("JsonRTGen", "rt_model", workers=8, consts={"Tier": '"%s"' % run.tier}, timeout=1800)
     run.tlc_eval("JsonRTGen", "rt_gen", consts={"Gob": "TRUE", "Tier": '"%s"' % run.tier}, timeout=3000)
     cases = run.spec_path("rt_cases.ndjson")
     ncases = sum(1 for _ in open(cases))
